@@ -320,6 +320,23 @@ def probe_hashseeds():
     raise RuntimeError(f"no PYTHONHASHSEED in 0..23 changes the iteration order of set({RES_NAMES}): {orders}")
 
 
+def probe_name_order_seed(exclude=()):
+    """A hash seed under which a fresh interpreter iterates two-element sets of the generator's task / job / profile
+    names in the opposite order than under seed 0 for as many pairs as possible (any code path that iterates a set
+    of such names then produces a different order in the two processes). Probes the interpreter only."""
+    names = [f"T{i}" for i in range(8)] + [f"J{i}" for i in range(3)] + [f"J0_P{i}" for i in range(4)]
+    pairs = [(a, b) for i, a in enumerate(names) for b in names[i + 1:] if a[0] == b[0]]
+    code = ("import sys; ns=sys.argv[1:]; "
+            "print(''.join('1' if list({ns[i], ns[i+1]})[0]==ns[i] else '0' for i in range(0,len(ns),2)))")
+    flat = [x for p in pairs for x in p]
+    res = {}
+    for h in range(0, 24):
+        env = dict(os.environ, PYTHONHASHSEED=str(h), PYTHONDONTWRITEBYTECODE="1")
+        res[h] = subprocess.run([sys.executable, "-c", code, *flat], env=env, stdout=subprocess.PIPE, text=True, timeout=60, check=True).stdout.strip()
+    best = max((h for h in res if h != 0 and h not in exclude), key=lambda h: sum(a != b for a, b in zip(res[0], res[h])))
+    return best, sum(a != b for a, b in zip(res[0], res[best])) / max(1, len(pairs))
+
+
 def run_world(world, base: Path, hashseeds, pool: ThreadPoolExecutor):
     wl, wk = write_world(world, base)
     args = argv(world, wl, wk)
@@ -682,10 +699,12 @@ def run(chk: common.Check):
     # ---- runtime half: fresh processes
     h0, h1, orders = probe_hashseeds()
     rng = common.Rng(chk.seed, "c09")
+    h2, frac = probe_name_order_seed(exclude=(h1,))
+    chk.extra["name_order_probe"] = {"hashseed": h2, "fraction_of_name_pairs_reversed": round(frac, 2)}
     if chk.tier == "quick":
-        hashseeds = [h0, h1]
+        hashseeds = [h0, h1, h2]
     else:
-        hashseeds = [h0, h0, h1, rng.randrange(24, 2**32 - 1)]
+        hashseeds = [h0, h0, h1, h2, rng.randrange(24, 2**32 - 1)]
     chk.extra["hashseeds"] = hashseeds
     chk.extra["set_order_probe"] = {str(h): o for h, o in orders.items() if h in (h0, h1)}
     worlds = [gen_world(rng, WANTS[i % len(WANTS)]) for i in range(size["worlds"])]
